@@ -498,6 +498,12 @@ func wholeRunStage(c *vh.Ctx, runs int, legumes bool, eval func(c *vh.Ctx, run *
 			c.Count("run:input-rejected")
 			continue
 		}
+		if _, ok := nitroSameDayIrrConc[p]; ok {
+			c.Count("run:schedule-with-two-irrigation-lines-on-one-day")
+			if run.SameDayIrrDays > 0 {
+				c.Count("run:schedule-with-two-irrigation-lines-on-one-day:water-applied-that-day")
+			}
+		}
 		if k < 1 {
 			c.Sample(map[string]interface{}{"project": p.Name, "layers": run.N, "days": len(run.Days), "substep_histogram": run.Steps})
 		}
